@@ -747,6 +747,27 @@ func bypassAdversarial(c *Ctx, suite string) {
 			in["segment"] = Hex(rawSeg)
 			c.R.Fail("oracle", suite+"_no_marker", "mq:bypass:marker", v, in)
 		}
+		// oracle: a raw decoder started on the segment returns the coded bits.  Not for the
+		// "fresh" prefix: with bp = 0 the first raw byte is written into the dummy slot
+		// buffer[0], which GetBuffer never returns (BypassInitEnc presupposes a terminated MQ
+		// segment; T1 always has one) - C20_mq_raw_segment states the hypothesis bp >= 1.
+		if k.pkind == "fresh" {
+			return
+		}
+		c.R.Oracle(suite + "_roundtrip")
+		if p, msg := Safely(func() {
+			d := mqc.NewRawDecoder(rawSeg)
+			for j, b := range k.bits {
+				if got := d.RawDecode(); got != b {
+					sig := "mq:bypass:roundtrip"
+					in["segment"] = Hex(rawSeg)
+					c.R.Fail("oracle", suite+"_roundtrip", sig, fmt.Sprintf("raw bit %d decodes to %d, coded %d", j, got, b), in)
+					break
+				}
+			}
+		}); p {
+			c.R.Fail("oracle", suite+"_roundtrip", "mq:raw:panic", "raw decoder panicked: "+msg, in)
+		}
 	})
 }
 
